@@ -25,9 +25,131 @@ impl FileName {
         ensures r is Less <==> fname_lt(*self, *other), r is Equal <==> *self == *other, r is Greater <==> fname_lt(*other, *self),
     { unimplemented!() }
 }
-pub struct MNode { pub name: EscName, pub rest: u64 }
+pub struct MNode { pub name: EscName, pub subtree: Option<TreeId>, pub meta: MMeta, pub dir: bool, pub rest: u64 }
+pub struct MMeta { pub size: u64 }
 impl MNode {
     #[verifier::external_body]
     pub fn name(&self) -> (r: FileName) ensures r == unesc(self.name), { unimplemented!() }
+    pub fn is_dir(&self) -> (r: bool) ensures r == self.dir, { self.dir }
 }
 pub struct SortedNode(pub MNode, pub usize);
+
+// ---- the k-way merge loop of blob::tree::merge_trees ----
+#[verifier::external_body]
+pub proof fn axiom_fname_total_order()
+    ensures
+        forall|a: FileName| !#[trigger] fname_lt(a, a),
+        forall|a: FileName, b: FileName, c: FileName| #![trigger fname_lt(a, b), fname_lt(b, c)] fname_lt(a, b) && fname_lt(b, c) ==> fname_lt(a, c),
+        forall|a: FileName, b: FileName| #![trigger fname_lt(a, b)] a == b || fname_lt(a, b) || fname_lt(b, a),
+{}
+// stored names are canonical escapes (what escape_filename produces): two stored names stand for the same file name
+// only if they are the same string (ASSUMED; a foreign writer could store non-canonical escapes)
+#[verifier::external_body]
+pub proof fn axiom_unesc_injective()
+    ensures forall|a: EscName, b: EscName| #![trigger unesc(a), unesc(b)] unesc(a) == unesc(b) ==> a == b,
+{}
+pub open spec fn fn_of(n: MNode) -> FileName { unesc(n.name) }
+pub open spec fn strictly_sorted(s: Seq<MNode>) -> bool { forall|a: int, b: int| 0 <= a < b < s.len() ==> fname_lt(fn_of(s[a]), fn_of(s[b])) }
+#[verifier::external_body]
+pub fn vname_ne(a: &EscName, b: &EscName) -> (r: bool) ensures r == (*a != *b), { unimplemented!() }
+// vec::IntoIter<Node> of one input tree: the nodes not yet taken
+pub struct VNodeIter { pub rem: Ghost<Seq<MNode>> }
+// tree_iters[num].next()
+#[verifier::external_body]
+pub fn vnext_of(iters: &mut Vec<VNodeIter>, num: usize) -> (r: Option<MNode>)
+    requires num < old(iters)@.len(),
+    ensures
+        final(iters)@.len() == old(iters)@.len(),
+        forall|j: int| 0 <= j < old(iters)@.len() && j != num ==> final(iters)@[j] == old(iters)@[j],
+        old(iters)@[num as int].rem@.len() == 0 ==> r is None && final(iters)@[num as int].rem@ == old(iters)@[num as int].rem@,
+        old(iters)@[num as int].rem@.len() > 0 ==> r == Some(old(iters)@[num as int].rem@[0]) && final(iters)@[num as int].rem@ == old(iters)@[num as int].rem@.drop_first(),
+{ unimplemented!() }
+// BinaryHeap<SortedNode>: a max-heap by SortedNode::cmp.  The unit merge_heap_order proves that cmp is the REVERSE of the
+// file-name order, so pop returns an element with the SMALLEST file name (BinaryHeap semantics ASSUMED)
+pub struct VHeap { pub items: Ghost<Seq<(MNode, usize)>> }
+impl VHeap {
+    #[verifier::external_body]
+    pub fn push(&mut self, e: SortedNode) ensures final(self).items@ == old(self).items@.push((e.0, e.1)), { unimplemented!() }
+    #[verifier::external_body]
+    pub fn pop(&mut self) -> (r: Option<SortedNode>)
+        ensures
+            old(self).items@.len() == 0 ==> r is None && final(self).items@ == old(self).items@,
+            old(self).items@.len() > 0 ==> r is Some,
+            r matches Some(sn) ==> exists|k: int| 0 <= k < old(self).items@.len() && #[trigger] old(self).items@[k] == (sn.0, sn.1)
+                && final(self).items@ == old(self).items@.remove(k),
+            r matches Some(sn) ==> forall|j: int| 0 <= j < old(self).items@.len() ==> !fname_lt(fn_of((#[trigger] old(self).items@[j]).0), fn_of(sn.0)),
+    { unimplemented!() }
+}
+pub struct MTree { pub nodes: Vec<MNode> }
+impl MTree {
+    pub fn add(&mut self, node: MNode) ensures final(self).nodes@ == old(self).nodes@.push(node), { self.nodes.push(node); }
+}
+pub struct SummaryM { pub files_unmodified: u64, pub total_files_processed: u64, pub total_bytes_processed: u64 }
+// merge_nodes (unit merge_nodes_winner): the winner is one of the given nodes (all have the same file name), only its subtree changes
+#[verifier::external_body]
+pub fn vmerge_nodes(nodes: Vec<MNode>, summary: &mut SummaryM) -> (r: RusticResult<MNode>)
+    requires nodes@.len() > 0,
+    ensures r matches Ok(n) ==> exists|i: int| 0 <= i < nodes@.len() && n.name == (#[trigger] nodes@[i]).name,
+{ unimplemented!() }
+// does file name f occur among the pending inputs / in the output?
+pub open spec fn in_seq(s: Seq<MNode>, f: FileName) -> bool { exists|i: int| 0 <= i < s.len() && fn_of(#[trigger] s[i]) == f }
+pub open spec fn in_heap(h: Seq<(MNode, usize)>, f: FileName) -> bool { exists|i: int| 0 <= i < h.len() && fn_of((#[trigger] h[i]).0) == f }
+pub open spec fn in_iters(it: Seq<VNodeIter>, f: FileName) -> bool { exists|j: int| 0 <= j < it.len() && in_seq((#[trigger] it[j]).rem@, f) }
+// the heap holds, per input tree, at most its current head: an element of tree j smaller than everything left of tree j
+pub open spec fn heap_ok(h: Seq<(MNode, usize)>, it: Seq<VNodeIter>, num: int) -> bool {
+    &&& forall|i: int| 0 <= i < h.len() ==> 0 <= (#[trigger] h[i]).1 < it.len() && h[i].1 != num
+            && forall|a: int| 0 <= a < it[h[i].1 as int].rem@.len() ==> fname_lt(fn_of(h[i].0), fn_of(#[trigger] it[h[i].1 as int].rem@[a]))
+    &&& forall|i: int, k: int| 0 <= i < k < h.len() ==> (#[trigger] h[i]).1 != (#[trigger] h[k]).1
+}
+// every input other than `num` that still has nodes has its head in the heap
+pub open spec fn heads_present(h: Seq<(MNode, usize)>, it: Seq<VNodeIter>, num: int) -> bool {
+    forall|j: int| 0 <= j < it.len() && j != num && (#[trigger] it[j]).rem@.len() > 0 ==> exists|i: int| 0 <= i < h.len() && (#[trigger] h[i]).1 == j
+}
+
+pub proof fn lemma_after_pop(h1: Seq<(MNode, usize)>, h2: Seq<(MNode, usize)>, it: Seq<VNodeIter>, nn: MNode, nnum: usize)
+    requires heap_ok(h1, it, -1), heads_present(h1, it, -1),
+        exists|k: int| 0 <= k < h1.len() && #[trigger] h1[k] == (nn, nnum) && h2 == h1.remove(k),
+        forall|j: int| 0 <= j < h1.len() ==> !fname_lt(fn_of((#[trigger] h1[j]).0), fn_of(nn)),
+    ensures heap_ok(h2, it, nnum as int), heads_present(h2, it, nnum as int), nnum < it.len(),
+        forall|a: int| 0 <= a < it[nnum as int].rem@.len() ==> fname_lt(fn_of(nn), fn_of(#[trigger] it[nnum as int].rem@[a])),
+        forall|i: int| 0 <= i < h2.len() ==> !fname_lt(fn_of((#[trigger] h2[i]).0), fn_of(nn)),
+        forall|f: FileName| in_heap(h1, f) ==> f == fn_of(nn) || in_heap(h2, f),
+        exists|k: int| 0 <= k < h1.len() && (#[trigger] h1[k]).0 == nn,
+{
+    let k = choose|k: int| 0 <= k < h1.len() && #[trigger] h1[k] == (nn, nnum) && h2 == h1.remove(k);
+    assert forall|i: int| 0 <= i < h2.len() implies h2[i] == h1[if i < k { i } else { i + 1 }] by {}
+    assert forall|i: int| 0 <= i < h2.len() implies 0 <= (#[trigger] h2[i]).1 < it.len() && h2[i].1 != nnum as int
+        && forall|a: int| 0 <= a < it[h2[i].1 as int].rem@.len() ==> fname_lt(fn_of(h2[i].0), fn_of(#[trigger] it[h2[i].1 as int].rem@[a])) by {
+        let i1 = if i < k { i } else { i + 1 }; assert(h2[i] == h1[i1]); if i1 < k { assert(h1[i1].1 != h1[k].1); } else { assert(h1[k].1 != h1[i1].1); }
+    }
+    assert forall|i: int, m: int| 0 <= i < m < h2.len() implies (#[trigger] h2[i]).1 != (#[trigger] h2[m]).1 by {
+        let i1 = if i < k { i } else { i + 1 }; let m1 = if m < k { m } else { m + 1 }; assert(h2[i] == h1[i1] && h2[m] == h1[m1]);
+    }
+    assert forall|j: int| 0 <= j < it.len() && j != nnum as int && (#[trigger] it[j]).rem@.len() > 0 implies exists|i: int| 0 <= i < h2.len() && (#[trigger] h2[i]).1 == j by {
+        let i1 = choose|i1: int| 0 <= i1 < h1.len() && (#[trigger] h1[i1]).1 == j; assert(i1 != k);
+        let i = if i1 < k { i1 } else { i1 - 1 }; assert(h2[i] == h1[i1]);
+    }
+    assert forall|i: int| 0 <= i < h2.len() implies !fname_lt(fn_of((#[trigger] h2[i]).0), fn_of(nn)) by { let i1 = if i < k { i } else { i + 1 }; assert(h2[i] == h1[i1]); }
+    assert forall|f: FileName| in_heap(h1, f) implies f == fn_of(nn) || in_heap(h2, f) by {
+        let i1 = choose|i1: int| 0 <= i1 < h1.len() && fn_of((#[trigger] h1[i1]).0) == f;
+        if i1 != k { let i = if i1 < k { i1 } else { i1 - 1 }; assert(h2[i] == h1[i1]); }
+    }
+}
+pub proof fn lemma_group_name(grp0: Seq<MNode>, nd: MNode, grp1: Seq<MNode>, w: MNode)
+    requires grp1 == grp0.push(nd), forall|i: int| 0 <= i < grp0.len() ==> fn_of(#[trigger] grp0[i]) == fn_of(nd),
+        exists|i: int| 0 <= i < grp1.len() && w.name == (#[trigger] grp1[i]).name,
+    ensures fn_of(w) == fn_of(nd),
+{
+    let i = choose|i: int| 0 <= i < grp1.len() && w.name == (#[trigger] grp1[i]).name;
+    if i < grp0.len() { assert(grp1[i] == grp0[i]); }
+}
+
+// nodes.into_iter().max_by(|n1, n2| cmp(n1, n2)).unwrap(): one of the nodes (the last maximal one by the caller's ordering)
+#[verifier::external_body]
+pub fn vmax_by_cmp(nodes: Vec<MNode>) -> (r: MNode)
+    requires nodes@.len() > 0,
+    ensures exists|i: int| 0 <= i < nodes@.len() && r == #[trigger] nodes@[i],
+{ unimplemented!() }
+// commands-level recursion: merge_trees on the sub-directories of all directory nodes of the group
+#[verifier::external_body]
+pub fn vmerge_subtrees(trees: &Vec<TreeId>, summary: &mut SummaryM) -> RusticResult<TreeId> { unimplemented!() }
